@@ -183,3 +183,71 @@ Proof.
   unfold neutralise_with, replace_all.
   apply flat_obj_ctx; [exact Hl|apply ins_replace].
 Qed.
+
+(* ------------------------------------------------------------------------------------ *)
+(* a list of flat objects in context                                                      *)
+(* ------------------------------------------------------------------------------------ *)
+Lemma enc_objs_length l : (length l <= length (enc_objs l))%nat.
+Proof.
+  induction l as [|o l IH]; [cbn; lia|].
+  cbn [enc_objs]. unfold enc_flat_obj. rewrite !app_length. cbn [length]. rewrite !app_length. cbn [length].
+  destruct l as [|o1 l']; [cbn [length]; lia|].
+  rewrite !app_length. cbn [length] in IH |- *. lia.
+Qed.
+
+Lemma enc_objs_cons2 o0 o1 l :
+  enc_objs (o0 :: o1 :: l) = enc_flat_obj o0 ++ [44; 32] ++ enc_objs (o1 :: l).
+Proof. reflexivity. Qed.
+
+Lemma dec_objs_ctx : forall l o0 fuel,
+  Forall (Forall scalar_pair) (o0 :: l) -> (length (o0 :: l) <= fuel)%nat -> forall r z,
+  ins (enc_objs (o0 :: l) ++ 93 :: r) z ->
+  exists r1, ins r r1 /\ dec_objs fuel z = Some (o0 :: l, r1).
+Proof.
+  induction l as [|o1 l IH]; intros o0 fuel Hf Hl r z Hi;
+    (destruct fuel as [|f]; [cbn in Hl; lia|]);
+    inversion Hf as [|x xs Ho Hf']; subst.
+  - cbn [enc_objs] in Hi. rewrite app_nil_r in Hi.
+    apply (flat_obj_ctx o0) in Hi as (z1 & Hi & Hd); [|exact Ho].
+    apply (ins_no60_prefix [93]) with (y := r) in Hi as (z2 & -> & Hi);
+      [|cbn; intros [H|H]; [discriminate H|exact H]].
+    exists z2. split; [exact Hi|]. cbn [dec_objs]. rewrite Hd. reflexivity.
+  - rewrite enc_objs_cons2 in Hi. rewrite <- !app_assoc in Hi.
+    apply (flat_obj_ctx o0) in Hi as (z1 & Hi & Hd); [|exact Ho].
+    apply (ins_no60_prefix [44; 32]) in Hi as (z2 & -> & Hi); [|apply not60_2; discriminate].
+    destruct (IH o1 f Hf') with (r := r) (z := z2) as (r1 & Hr & Hd2); [cbn [length] in *; lia|exact Hi|].
+    exists r1. split; [exact Hr|]. cbn [dec_objs]. rewrite Hd. cbn [app]. rewrite Hd2. reflexivity.
+Qed.
+
+Lemma obj_list_ctx l r z :
+  Forall (Forall scalar_pair) l -> ins (enc_obj_list l ++ r) z ->
+  exists r1, ins r r1 /\ dec_obj_list z = Some (l, r1).
+Proof.
+  intros Hf Hi. unfold enc_obj_list in Hi. cbn [app] in Hi. rewrite <- app_assoc in Hi. cbn [app] in Hi.
+  apply (ins_no60_prefix [91]) in Hi as (z1 & -> & Hi);
+    [|cbn; intros [H|H]; [discriminate H|exact H]].
+  destruct l as [|o0 l].
+  - cbn [enc_objs app] in Hi.
+    apply (ins_no60_prefix [93]) with (y := r) in Hi as (z2 & -> & Hi);
+      [|cbn; intros [H|H]; [discriminate H|exact H]].
+    exists z2. split; [exact Hi|reflexivity].
+  - pose proof (ins_length _ _ Hi) as Hlen. rewrite app_length in Hlen.
+    pose proof (enc_objs_length (o0 :: l)) as Hm.
+    destruct (dec_objs_ctx l o0 (length z1) Hf) with (r := r) (z := z1) as (r1 & Hr & Hd);
+      [lia|exact Hi|].
+    exists r1. split; [exact Hr|].
+    cbn [enc_objs] in Hi. unfold enc_flat_obj in Hi at 1. cbn [app] in Hi.
+    apply (ins_no60_prefix [123]) in Hi as (z2 & -> & _);
+      [|cbn; intros [H|H]; [discriminate H|exact H]].
+    cbn [app dec_obj_list]. cbn [app] in Hd. exact Hd.
+Qed.
+
+Lemma obj_list_in_context_with f t :
+  neutralise_shape f t = true ->
+  forall l r, Forall (Forall scalar_pair) l ->
+  exists r1, ins r r1 /\ dec_obj_list (neutralise_with f t (enc_obj_list l ++ r)) = Some (l, r1).
+Proof.
+  intros Hsh l r Hl. destruct (shape_inv f t Hsh) as (tl & -> & ->).
+  unfold neutralise_with, replace_all.
+  apply obj_list_ctx; [exact Hl|apply ins_replace].
+Qed.
